@@ -10,23 +10,123 @@ the source statement by statement.
 Correspondence: profile `conc` (#sequences <, =, > Concurrency; hold scripts park exactly min(conc, #seqs) sequences
 inside their plugins while the director verifies for 5 ms that no further one starts, then releases them in a random
 order), `order` and `mixed` runs for variety (later sequences finishing first, overruns, failures), and several plans
-on ONE Workstream (the bound is per plan and per block).  Every trace must be accepted by the automaton and satisfy
+on ONE Workstream (the bound is per plan and per block), plus a batch in which several goroutines call Start for the
+same plan id together (race_batch: a plan run by two state machines breaks the bound).  Every trace must be accepted by the automaton and satisfy
 mon_conc; a false monitor is a concrete violation with that trace as the replay.
 """
 import json
 import os
 
+from vf import framework as fw
 from props import engine_common as ec
 from props import mech
 
+MONITORS = ["mon_conc", ("mon_conc_diag", "list"), ("conc_peak", "list")]
+EXTRA_HEADER = "From Coercion.C02 Require Import MonC02."
+RACE_K = 6
+
+
+def _racestart_supported():
+    """harness/cmd/engine has the -racestart flag (k goroutines call Workstream.Start for one plan id together)."""
+    try:
+        return "racestart" in open(os.path.join(fw.HARNESS, "cmd", "engine", "main.go")).read()
+    except OSError:
+        return False
+
+
+def race_batch(ctx):
+    """"For every plan ... every scheduler interleaving" includes callers that race: RACE_K goroutines call Start for the
+    SAME plan id together (a retried RPC).  At most one may run the plan; if two state machines run it, sequences are
+    launched twice and the bound breaks.  Same monitors on every trace; a child process that died (the second finisher
+    closes a nil waiter channel) or a hang is an observation and is reported as a violation as well.
+    Returns a dict for the evidence."""
+    quick = ctx.tier == "quick"
+    n = 40 if quick else 400
+    if not _racestart_supported():
+        ctx.notes.append("race batch skipped: harness/cmd/engine has no -racestart flag")
+        return dict(skipped="harness/cmd/engine has no -racestart flag")
+    cases = ec._harness(ctx, "conc", n, "cases_race.jsonl", ["-racestart", str(RACE_K), "-from", "200000"])
+    if cases is None:
+        return dict(skipped="harness did not run")
+    ctx.oblige("race batch: harness run completes (%d plans, %d racing Start calls each)" % (n, RACE_K), True)
+    return judge_race(ctx, cases, "race")
+
+
+def judge_race(ctx, cases, tag):
+    mons = ec._mon_specs(MONITORS)
+    header = ec._header(EXTRA_HEADER, mons)
+    died = [c for c in cases if any(w in (c.get("note") or "").lower() for w in ("panic", "died", "crash", "exit"))]
+    hangs = [c for c in cases if ec._is_hang(c) and c not in died]
+    live = [c for c in cases if c.get("coq") and c not in died and not ec._is_hang(c) and not c["dist"].get("late_start")]
+    results, infos = ec.evaluate(ctx, tag, live, header, ok_fn="eng_ok" if tag == "race" else "eng_mon_ok")
+    for info in infos:
+        ctx.oblige("corr_ok race shard %d (%d traces of plans started by %d racing Start calls): automaton accepts, monitors hold"
+                   % (info["shard"], info["n"], RACE_K), info["rc"] == 0)
+    bad, rejected = [], []
+    for c, r in zip(live, results):
+        acc, b, why = ec.classify(c, r, mons)
+        if any(m in b for m in ("mon_conc", "mon_conc_diag")):
+            bad.append((c, r, b, why))
+        elif not acc:
+            rejected.append((c, r, why))
+    if bad:
+        bad.sort(key=lambda x: ec._size(x[0]))
+        c, r, b, why = bad[0]
+        ctx.violation(ec._replay_obj(ctx, c, "monitor-false", "%d Start calls raced for one plan id and the plan's trace violates %s "
+                                     "(%d of %d raced plans); automaton: %s" % (RACE_K, b, len(bad), len(live), why), r, mons,
+                                     dict(failing_monitor=b[0], failing_monitors=b, racestart=RACE_K,
+                                          failing_cases=[x[0]["id"] for x in bad[:30]])), tag=tag)
+    if died:
+        c = died[0]
+        ctx.violation(ec._replay_obj(ctx, c, "process-died", "the process running the plan died after %d racing Start calls for one plan "
+                                     "id (%d of %d raced plans): %s" % (RACE_K, len(died), len(cases), c.get("note")), None, mons,
+                                     dict(racestart=RACE_K, dead_cases=[x["id"] for x in died[:30]])), tag=tag)
+    if hangs and not bad and not died:
+        c = hangs[0]
+        ctx.violation(ec._replay_obj(ctx, c, "hang", "Wait did not return after %d racing Start calls for one plan id (%d of %d raced "
+                                     "plans)" % (RACE_K, len(hangs), len(cases)), None, mons, dict(racestart=RACE_K)), tag=tag)
+    if rejected and not bad and not died:
+        rejected.sort(key=lambda x: ec._size(x[0]))
+        c, r, why = rejected[0]
+        ctx.violation(ec._replay_obj(ctx, c, "correspondence-broken", "corr_engine_accept (raced Start): %s; monitors true on %d rejected "
+                                     "traces" % (why, len(rejected)), r, mons,
+                                     dict(broken="corr_engine_accept: " + why, racestart=RACE_K)), nofail=True, tag=tag)
+    return dict(plans=len(cases), racing_start_calls=RACE_K, traces_checked=len(live), monitor_false=len(bad),
+                rejected_by_automaton=len(rejected) + sum(1 for x in bad if not ec.classify(x[0], x[1], mons)[0]),
+                process_died=len(died), hangs=len(hangs), distinct=len({c.get("hash") for c in live}),
+                start_calls_that_returned_nil=fw.histogram(c["dist"].get("start_ok") for c in cases if "start_ok" in c.get("dist", {})))
+
+
+def race_replay(ctx, rp):
+    """Replay of a race-batch case: the same plan (seed, index), the same number of racing Start calls, 20 times."""
+    ctx.engine_proj = "c02"
+    ctx.static_and_proofs("c02")
+    cases = ec._harness(ctx, rp.get("profile") or "conc", 1, "replay_race.jsonl",
+                        ["-racestart", str(rp["racestart"]), "-only", str(rp.get("index")), "-reps", "20"],
+                        seed=rp.get("case_seed") or rp.get("seed")) or []
+    res = judge_race(ctx, cases, "replay") if cases else dict(plans=0)
+    ctx.say("replayed %s index %s with %s racing Start calls: %s" % (rp.get("profile"), rp.get("index"), rp["racestart"], res))
+    if not ctx.violations:
+        ctx.say("replay: not reproduced on this repository (%d runs, no monitor violation, no dead process)" % len(cases))
+    ctx.evidence(dict(evaluations=len(cases), distinct_nontrivial=len({c.get("hash") for c in cases}),
+                      rule="replay of " + str(ctx.replay), samples=[], traces_validated_against_impl=res.get("traces_checked", 0),
+                      racing_start_batch=res))
+
 
 def run(ctx):
+    if ctx.replay:
+        try:
+            rp = json.load(open(ctx.replay))
+        except (OSError, ValueError):
+            rp = {}
+        if rp.get("racestart"):
+            return race_replay(ctx, rp)
     out = ec.run_engine_check(
         ctx,
         profile=[("conc", 216, 7200), ("order", 48, 1800), ("mixed", 48, 1800)],
         n_quick=0, n_thorough=0,
-        extra_header="From Coercion.C02 Require Import MonC02.",
-        monitors=["mon_conc", ("mon_conc_diag", "list"), ("conc_peak", "list")],
+        extra_header=EXTRA_HEADER,
+        monitors=MONITORS,
         release_obligation=False,
         multi_quick=48, multi_thorough=1440,
         proj="c02",
@@ -48,6 +148,7 @@ def run(ctx):
     )
     if not out or ctx.replay:
         return
+    race = race_batch(ctx)
     # how often the bound was attained: peak number of sequences of one block in flight vs the Concurrency
     peaks = {}
     for c, r in zip(out["live"], out["results"]):
@@ -64,6 +165,14 @@ def run(ctx):
         ev["coverage"]["peak_in_flight_vs_cap"] = dict(
             meaning="peak = largest number of sequences of one block inside their plugins together (conc_peak); "
                     "cap = max over blocks of min(Concurrency, #sequences)", histogram=peaks)
+        ev["coverage"]["racing_start_batch"] = race
+        if isinstance(race.get("traces_checked"), int):
+            ev["coverage"]["evaluations"] += race["plans"]
+            ev["coverage"]["traces_validated_against_impl"] += race["traces_checked"]
+        ev["coverage"]["obligations"] = len(ctx.obligations)
+        ev["coverage"]["discharged"] = sum(1 for _, ok in ctx.obligations if ok)
+        ev["coverage"]["obligation_list"] = [dict(name=n, discharged=ok) for n, ok in ctx.obligations]
+        ev["violations"] = len(ctx.violations)
         json.dump(ev, open(p, "w"), indent=1, default=str)
     except (OSError, ValueError, KeyError):
         pass
